@@ -41,6 +41,9 @@ Inductive gevent :=
 | GBurst (rqs : list request)   (* HTLCs handled concurrently while the table lock is contended: all handle_htlc segments in
                                    queue order first, the lifecycles' polls after them *)
 | GEv (h : nat) (ev : event)       (* EvProcess / EvDeliver / EvPart / EvPayNewPart / EvPayFinish of hash h *)
+| GTimeout (h cid : nat)           (* the node answers a waitsendpay that carried a timeout with "timed out" while the part is still
+                                     pending: a legitimate reply (code 200), not a fault. The unchanged plugin never passes a timeout,
+                                     so this event occurs only in traces of changed code (DESIGN 0, "Out of vocabulary") *)
 | GTick (dt : N)
 | GHeight (v : N)
 | GCrash.
@@ -116,6 +119,9 @@ Definition gstep (w : world) (g : gsys) (ev : gevent) (sel : bool) : gsys * list
   | GEv h ev =>
       let ev' := match ev with EvDeliver c _ => EvDeliver c sel | x => x end in
       let '(s', o) := step (w_cfg w) (get_comp g h) ev' in (put_comp g h s', map (lift_out h) o)
+  | GTimeout h cid =>
+      (* for the plugin model an error reply to the wait, without effect on the node *)
+      let '(s', o) := step (w_cfg w) (get_comp g h) (EvProcess cid Rejected) in (put_comp g h s', map (lift_out h) o)
   | GTick dt =>
       let '(cs, o) := map_comps (fun s => step (w_cfg w) s (EvTick dt)) g in
       ({| comps := cs; gnow := gnow g + dt; gheight := gheight g |}, o)
@@ -209,7 +215,7 @@ Record tstep := {
 (* the reply the model's node gives to the call processed in this step (None if the event is not a process event) *)
 Definition model_reply (g g' : gsys) (ev : gevent) : option (option reply) :=
   match ev with
-  | GEv h (EvProcess cid _) =>
+  | GEv h (EvProcess cid _) | GTimeout h cid =>
       match nth_error (calls (get_comp g h)) cid, nth_error (calls (get_comp g' h)) cid with
       | Some before, Some after =>
           match c_st before, c_st after with
